@@ -383,8 +383,16 @@ func (env *Env) evalIdent(e *ast.Ident) Val {
 		return v
 	}
 	if env.useLocals {
-		if v, ok := fc.locals[e.Name]; ok {
-			if fc.localIsAddr[e.Name] {
+		v, ok := fc.locals[e.Name]
+		isAddr := fc.localIsAddr[e.Name]
+		if env.st != nil {
+			// the value the variable has at this program point, when the flow determines it
+			if w, has := env.st.locals[e.Name]; has {
+				v, ok, isAddr = w, true, env.st.localAddr[e.Name]
+			}
+		}
+		if ok {
+			if isAddr {
 				// an addressable local: structs stay references (selector bases), scalars are loaded
 				if pt, ok := v.Typ.Underlying().(*types.Pointer); ok && !isStruct(pt.Elem()) {
 					return fc.deref(env.st, v)
@@ -933,7 +941,11 @@ func (env *Env) evalCall(e *ast.CallExpr) Val {
 			}
 			sub.vars[name] = Val{T: bv, Sort: "String", Typ: types.Typ[types.String]}
 			fc.inQuant++
+			sSaved := sub.factsP
+			sLocal := []string{}
+			sub.factsP = &sLocal // facts that mention the bound variable are dropped (sound: fewer assumptions)
 			body := sub.evalBool(e.Args[1])
+			sub.factsP = sSaved
 			fc.inQuant--
 			if pats := selectPatterns(body, bv); len(pats) > 0 {
 				return boolVal(fmt.Sprintf("(forall ((%s String)) (! %s :pattern (%s)))", bv, body, pats[0]))
@@ -956,10 +968,18 @@ func (env *Env) evalCall(e *ast.CallExpr) Val {
 			}
 			sub.vars[name] = Val{T: bv, Sort: ks, Typ: mt.Key()}
 			fc.inQuant++
+			savedFacts := sub.factsP
+			localFacts := []string{}
+			sub.factsP = &localFacts
 			body := sub.evalBool(e.Args[2])
+			sub.factsP = savedFacts
 			fc.inQuant--
 			d, _ := fc.mapHeaps(mt)
 			dom := And(Not(Eq(m.T, "nilR")), Select(Select(fc.H(env.st, d), m.T), bv))
+			if len(localFacts) > 0 && savedFacts != nil {
+				// facts about values read inside the body mention the bound key: they hold for every key of the map
+				*savedFacts = append(*savedFacts, fmt.Sprintf("(forall ((%s %s)) (! %s :pattern (%s)))", bv, ks, Imp(dom, And(localFacts...)), Select(Select(fc.H(env.st, d), m.T), bv)))
+			}
 			return boolVal(fmt.Sprintf("(forall ((%s %s)) (! %s :pattern (%s)))", bv, ks, Imp(dom, body), Select(Select(fc.H(env.st, d), m.T), bv)))
 		case "gforall":
 			// gforall(k, body): quantification over interface-valued keys
@@ -972,7 +992,11 @@ func (env *Env) evalCall(e *ast.CallExpr) Val {
 			}
 			sub.vars[name] = Val{T: bv, Sort: "Iface", Typ: types.NewInterfaceType(nil, nil)}
 			fc.inQuant++
+			gSaved := sub.factsP
+			gLocal := []string{}
+			sub.factsP = &gLocal // facts that mention the bound variable are dropped (sound: fewer assumptions)
 			body := sub.evalBool(e.Args[1])
+			sub.factsP = gSaved
 			fc.inQuant--
 			// nested gforall: merge into one quantifier with a trigger that mentions every bound variable
 			if strings.HasPrefix(body, "(forall (") {
